@@ -39,17 +39,17 @@ CellsHaveParents(Mc, Mf, par, dim) ==
 FineInCoarse(Mc, Mf, par, fam, dim, RV, f) ==
   LET c == ParentCell(par, dim, f)
       fv == Idx(Mf, dim, 0)[f]
-  IN [lv \in 1..Len(fv) |-> LET o == par[1][fv[lv] + 1]
-                                k == LocalOf(Mc, dim, c, o[1], o[2])
-                            IN BaryOf(RV, LFaceSet(fam, dim, o[1], k))]
+  IN TLCEval([lv \in 1..Len(fv) |-> LET o == par[1][fv[lv] + 1]
+                                        k == LocalOf(Mc, dim, c, o[1], o[2])
+                                    IN BaryOf(RV, LFaceSet(fam, dim, o[1], k))])
 
 \* NUM[f][li][lj] = numerator of N'_{f,li}(phi_{parent f, lj}) over  T.den * S^D * Len(nodes)
 LocalNum(Mc, Mf, par, T) ==
   LET RV == RefVerts(T.fam, T.dim)
       nl == Len(T.layout)
-  IN [f \in 1..N(Mf, T.dim) |->
+  IN TLCEval([f \in 1..N(Mf, T.dim) |->
        LET Y == FineInCoarse(Mc, Mf, par, T.fam, T.dim, RV, f) IN
-         [li \in 1..nl |-> [lj \in 1..nl |-> ApplyNode(T.nodes[li], T.basis[lj], Y, T.S, T.D)]]]
+         TLCEval([li \in 1..nl |-> TLCEval([lj \in 1..nl |-> ApplyNode(T.nodes[li], T.basis[lj], Y, T.S, T.D)])])])
 LocalScale(T) == T.den * IPow(T.S, T.D) * Len(T.nodes[1])
 NodesIntegral(Mc, Mf, par, T) ==
   LET RV == RefVerts(T.fam, T.dim) IN
@@ -57,7 +57,7 @@ NodesIntegral(Mc, Mf, par, T) ==
 
 \* occurrences of every fine dof:  OCC[i + 1] = {<<f, li>>}
 Occurrences(Gf, ng) ==
-  LET pairs == {<<f, li>> : f \in 1..Len(Gf), li \in 1..Len(Gf[1])} IN [i \in 1..ng |-> {p \in pairs : Gf[p[1]][p[2]] = i - 1}]
+  LET pairs == {<<f, li>> : f \in 1..Len(Gf), li \in 1..Len(Gf[1])} IN TLCEval([i \in 1..ng |-> {p \in pairs : Gf[p[1]][p[2]] = i - 1}])
 \* contributions to row i' (1-based i): set of <<f, li, lj, j, num>> with num # 0
 RowContribs(occ, NUM, Gc, par, dim) ==
   UNION {{<<p[1], p[2], lj, Gc[ParentCell(par, dim, p[1])][lj], NUM[p[1]][p[2]][lj]>> : lj \in {l \in 1..Len(Gc[1]) : NUM[p[1]][p[2]][l] # 0}} : p \in occ}
